@@ -483,7 +483,7 @@ OPTION_COMBOS = [(True, False, True), (True, True, True), (True, True, False), (
 
 
 def plan(lib, tier, seed, quick_n, lengths_quick=(1, 3), lengths_thorough=(1, 3), combos_quick=None, extra=None, names='ABC',
-         combos_thorough=None, quick_all_lengths=False):
+         combos_thorough=None, quick_all_lengths=False, pin_c_quick=False):
     """[(extra_pre list)] - quick: quick_n skeletons (seeded rotation; all if quick_n >= len(lib)), one name length and one
     option combination each (both rotate with the seed; length 1 is where generated names A, B, ... can collide with the
     program's own); thorough: the whole library x every length x every option combination."""
@@ -511,6 +511,8 @@ def plan(lib, tier, seed, quick_n, lengths_quick=(1, 3), lengths_thorough=(1, 3)
                    'rl == %s' % rl, 'rg == %s' % rg, 'hl == %s' % hl]
             if extra:
                 pre += extra
+            if tier == 'quick' and pin_c_quick and L > 1 and 'C' in names:
+                pre.append('C == %r' % ('c' * L))     # quick tier: the third hole is pinned for the longer names
             shards.append(pre)
     return shards
 
